@@ -299,9 +299,22 @@ def Rng.halfNormalReal (r : Rng) (rmin rmax focus : Float) : Option Float × Rng
       let q := if v ≥ 0.0 then v + rmin else rmin
       if q > rmax then rmax else q), d.2)
 
+/-- `(int)x` of a `double` as x86-64 executes it (`cvttsd2si`): exact for values in the `int` range, and the
+"integer indefinite" value `INT_MIN` for anything else (formally undefined behaviour in C++). -/
+def castIntX86 (x : Float) : Int :=
+  if x ≥ -2147483648.0 && x < 2147483648.0 then x.toInt64.toInt else -2147483648
+
+/-- `RNG::halfNormalInt` as coded: `r = (int)floor(halfNormalReal((double)rmin, (double)rmax + 1.0, focus))`,
+`return r > rmax ? rmax : r` — the cast comes *before* the clamp, so for `rmax = INT_MAX` a real value that reaches
+`rmax + 1 = 2^31` is cast out of range (finding F204: the result is `INT_MIN`). -/
 def Rng.halfNormalInt (r : Rng) (rmin rmax : Int) (focus : Float) : Option Int × Rng :=
   let d := r.halfNormalReal (Float.ofInt rmin) (Float.ofInt rmax + 1.0) focus
-  (d.1.map (fun x => let v := (Float.floor x).toInt64.toInt; if v > rmax then rmax else v), d.2)
+  (d.1.map (fun x => let v := castIntX86 (Float.floor x); if v > rmax then rmax else v), d.2)
+
+/-- the repaired form (clamp in `double` before the cast, as `uniformInt` since ebb35683a) -/
+def Rng.halfNormalIntFixed (r : Rng) (rmin rmax : Int) (focus : Float) : Option Int × Rng :=
+  let d := r.halfNormalReal (Float.ofInt rmin) (Float.ofInt rmax + 1.0) focus
+  (d.1.map (fun x => let v := Float.floor x; if v > Float.ofInt rmax then rmax else v.toInt64.toInt), d.2)
 
 /-- `boost::math::constants::pi<double>()` -/
 def piD : Float := Float.ofBits 0x400921FB54442D18
